@@ -150,7 +150,7 @@ theorem remove_present_spec {T : SpkiTable} (iv : SInv T) (r : SpkiRec) (hr : r 
   have e : T.remove d = (({ T with ht := (T.ht.remove (cmp d) (spkiHash d)).1, list := T.list.erase d } : SpkiTable).notify false d,
       .success) := by
     unfold remove
-    simp only [hnone, if_false]
+    simp only [hnone]
     rcases hrm : T.ht.remove (cmp d) (spkiHash d) with ⟨ht', o⟩
     rw [hrm] at h2
     simp only at h2
@@ -248,7 +248,7 @@ theorem srcRemoveLoop_spec (src : Nat) (L : List SpkiRec) (T : SpkiTable) (iv : 
           intro h; subst h; exact hn ⟨by simp, hs⟩
       · rw [d, notify_log, notify_hasCb]
         show T.log ++ _ ++ _ = _
-        cases T.hasCb <;> simp [hs, T1]
+        cases T.hasCb <;> simp [hs]
     · have e1 : srcRemoveLoop src (e :: rest) T = srcRemoveLoop src rest T := by
         simp [srcRemoveLoop, hs]
       rw [e1]
@@ -267,7 +267,7 @@ theorem srcRemoveLoop_spec (src : Nat) (L : List SpkiRec) (T : SpkiTable) (iv : 
           exact ⟨hx, fun ⟨h1, h2⟩ => hn ⟨by simp [h1], h2⟩⟩
       · rw [d]
         have : (e.src == src) = false := by simpa using hs
-        simp [List.filter_cons, this]
+        simp [this]
 
 /-- `spki_table_src_remove` -/
 theorem srcRemove_spec {T : SpkiTable} (iv : SInv T) (src : Nat) :
@@ -411,7 +411,7 @@ theorem copyLoop_spec (src : Nat) (L : List SpkiRec) (D : SpkiTable) (iv : SInv 
             · exact g2 x h hxs
           · rw [g3]
             have : (e.src != src) = false := by simp [hs]
-            simp [List.filter_cons, this]
+            simp [this]
         · exact Or.inr ⟨g1, x, by simp [hx], hxs, hxd⟩
     · have hsb : (e.src != src) = true := by simpa using hs
       by_cases hin : e ∈ D.list
@@ -450,7 +450,7 @@ theorem copyLoop_spec (src : Nat) (L : List SpkiRec) (D : SpkiTable) (iv : SInv 
               · intro hxd
                 exact g2 x h hxs (by rw [a3]; simp [hxd])
             · rw [g3, a3]
-              simp [List.filter_cons, hsb]
+              simp [hsb]
           · refine Or.inr ⟨g1, x, by simp [hx], hxs, ?_⟩
             rw [a3] at hxd
             rcases List.mem_append.mp hxd with h | h
